@@ -43,6 +43,8 @@ var Starts = []Start{
 	{"head-torn", []string{"P:0/1/u", "P:1/1/u", "P:0/1/u"}, false, false, true, false},
 	// the head segment [2 3 4] lost its middle message: offsets in it are not dense
 	{"head-gap", []string{"P:0/1/u", "P:1/1/u", "P:0/1/u,1/1/u,0/1/u", "D:3"}, false, false, false, false},
+	// the newest message was deleted: the log ends in an empty head segment whose base offset is the next offset
+	{"tail-deleted", []string{"P:0/1/u", "P:1/1/u", "P:0/1/u", "D:2"}, false, false, false, false},
 	// the head's index file is cut short: a lazily loading (read-only) handle only finds out at its first read
 	{"head-index-cut", []string{"P:0/1/u", "P:1/1/u", "P:0/1/u"}, false, false, false, true},
 }
